@@ -38,6 +38,41 @@ def real_line_info(text, lineno, tmpdir, idx):
     return off, ln, src
 
 
+def whole_mirs(res, tier):
+    from ..corr import k10, k12
+    from ..gen import programs
+    from ..oracle import srcref
+    n = 40 if tier == "quick" else 800
+    stats = {"programs": 0, "mirs": 0, "elements_checked": 0, "elements_with_known_statement": 0}
+    kinds = list(programs.Gen.SCENARIOS)
+    for idx in range(n):
+        scen = kinds[idx % len(kinds)] if idx % 2 == 0 else None
+        m, _ = programs.generate("C19", idx, max_cmds=20, scenario=scen)
+        facts = k12.reg_facts(m)
+        rr = k10.render_scripts(m.events, m.results, f"c19x{idx}")
+        if rr is None:
+            continue
+        files, progs = rr
+        outs, _ = k10.run_scripts(m.events, m.results, f"c19x{idx}", via="script", raw=True)
+        stats["programs"] += 1
+        op_lines, per_prog = k10.expected_lines(m.events, facts, files, progs)
+        texts = dict(files)
+        for (fn, spec), o in zip(progs, outs):
+            if "raw" not in o:
+                continue
+            stats["mirs"] += 1
+            mir = o["raw"]
+            stats["elements_checked"] += sum(1 for _ in srcref.elements(mir))
+            stats["elements_with_known_statement"] += sum(1 for _, _, k, nm in srcref.elements(mir)
+                                                          if (k is not None and k in op_lines) or (nm in per_prog[fn]))
+            for kind, text in srcref.check(mir, texts, op_lines, per_prog[fn])[:3]:
+                res.violation({"property": "C19", "kind": "mir-" + kind, "text": text, "events": m.events, "program_file": fn,
+                               "files": files}, f"{fn} ({len(progs)} programs compiled in one process): {text}"[:400])
+        if len(res.violations) > 10:
+            break
+    return stats
+
+
 def run(res, tier):
     evals, nontrivial = 0, set()
     samples = []
@@ -64,6 +99,11 @@ def run(res, tier):
                                "history": ["first_copy_prog.py", "second_copy_prog.py", "first_copy_prog.py"]},
                               f"{name} in {fname} (same text compiled under several names in one process): reference does "
                               f"not designate this file's statement (file ok={f_ok}, line ok={l_ok}, extent ok={t_ok})")
+    reset_globals()
+    # 2b. whole MIRs: generated programs compiled from files through compile_script, several programs per process
+    #     sharing modules (K10 rendering); every element of every MIR is checked against the program text
+    mir_stats = whole_mirs(res, tier)
+    evals += mir_stats["elements_checked"]
     reset_globals()
     # 3. line arithmetic: model (Lean lineInfo) vs real try_get_line_info on random texts, and the
     #    oracle `text[offset:offset+length] == line` directly
@@ -105,6 +145,7 @@ def run(res, tier):
                 f"{len(T4.static_call_sites())} syntactic back_frame() call sites must be reached), run from three file names in one "
                 "process; random texts (incl. form feeds, Unicode separators, tabs, non-ASCII) x line numbers (first, last, beyond) "
                 "through try_get_line_info vs the Lean lineInfo; non-trivial = distinct entries / (text, existing line) pairs",
+        "whole_mirs": mir_stats,
         "catalogue_entries": len(rows), "call_sites_unreached": len(unreached), "lineinfo_disagreements": len(diffs),
         "samples": samples,
     })
@@ -114,6 +155,25 @@ def run(res, tier):
 
 
 def replay(obj):
+    if obj.get("kind", "").startswith("mir-"):
+        from ..corr import k10, k12
+        from ..oracle import srcref
+        from ..real import interp
+        import copy
+        reset_globals()
+        m = interp.run_events(copy.deepcopy(obj["events"]))
+        facts = k12.reg_facts(m)
+        files, progs = k10.render_scripts(m.events, m.results, "c19r")
+        outs, _ = k10.run_scripts(m.events, m.results, "c19r", via="script", raw=True)
+        op_lines, per_prog = k10.expected_lines(m.events, facts, files, progs)
+        bad = []
+        for (fn, spec), o in zip(progs, outs):
+            if "raw" in o:
+                bad += srcref.check(o["raw"], dict(files), op_lines, per_prog[fn])
+        print(bad[:4] or "ok")
+        if bad:
+            print("VIOLATION property=C19 replay=(replayed)")
+        return 1 if bad else 0
     if obj.get("kind", "").startswith("entry"):
         rows, _ = T4.run_catalogue()
         bad = [r for r in rows if r[0] == obj["entry"] and not all(r[1:])]
